@@ -53,6 +53,7 @@ fn e1(name: &str, desc: String, grammars: Vec<G>) -> B {
             skip_not_content: true,
             lazy: false,
             pair_mode: None,
+            clone_mode: false,
         },
     }
 }
@@ -94,12 +95,16 @@ impl B {
         self.u.alarm |= DIF;
         self
     }
+    fn clone_mode(mut self) -> Self {
+        self.u.clone_mode = true;
+        self
+    }
     fn unit(self) -> Unit {
         Unit::E1(self.u)
     }
 }
 
-pub const ALL_PROPS: &[&str] = &["C01", "C02", "C03", "C04", "C05", "C06", "C07", "C08", "C09", "C10", "C11", "C12", "C14", "C15", "C17", "C18", "C20"];
+pub const ALL_PROPS: &[&str] = &["C01", "C02", "C03", "C04", "C05", "C06", "C07", "C08", "C09", "C10", "C11", "C12", "C13", "C14", "C15", "C17", "C18", "C20"];
 
 /// class for the output-elision differential (C04): extended class plus the eliding forms
 fn k04() -> en::Class {
@@ -211,7 +216,7 @@ pub fn units(prop: &str, tier: Tier) -> Option<Vec<Unit>> {
             ]
         }
         "C05" => {
-            let alarm = EMI | FIN | STO;
+            let alarm = EMI | FIN | STO | EMF;
             vec![
                 class("kext-emissions-state", &en::k_ext(), pick(4, 4)).len(pick(4, 5)).cfg(CfgId::RichSt).probes(STATE).alarm(alarm).unit(),
                 class("kstate-emissions-state", &en::k_state(), pick(3, 4)).cfg(CfgId::RichSt).probes(STATE).alarm(alarm).unit(),
@@ -315,6 +320,24 @@ pub fn units(prop: &str, tier: Tier) -> Option<Vec<Unit>> {
             ]
         }
         "C12" => vec![rec_unit("rec-templates", tier), rec_unit("rec-lifecycle", tier), rec_unit("rec-depth", tier), rec_unit("rec-define-twice", tier)],
+        "C13" => {
+            let any = ACC | VAL | EXT | EMI | EMC | PSP | PFO | PEX | PCX | CHK | PAN | NOE;
+            let dup = |gs: Vec<G>| -> Vec<G> { gs.into_iter().flat_map(|g| [g.clone(), g]).collect() };
+            let mut k02: Vec<G> = en::k02_rep(false);
+            k02.extend(en::k02_sep(false));
+            vec![
+                class("k01-through-clone", &en::k01(), pick(3, 4)).alarm(any).clone_mode().unit(),
+                class("kext-through-clone", &en::k_ext(), pick(3, 4)).alarm(any).clone_mode().unit(),
+                e1("k02-through-clone", "repeated()/separated_by() templates, every combinator value used through its Clone".into(), k02.clone()).alpha(&ABCOMMA, 4).alarm(any).clone_mode().unit(),
+                e1("k02-plain-vs-clone", "repeated()/separated_by() templates: the parser built plainly vs built through Clone at every node (differential)".into(), dup(k02))
+                    .alpha(&ABCOMMA, 4)
+                    .probes(NOPROBE)
+                    .pairs(PairMode::Exact)
+                    .clone_mode()
+                    .unit(),
+                e1("kext-plain-vs-clone", "extended class <= 3 nodes: plain vs through Clone (differential)".into(), dup(en::k_ext().upto(3))).probes(NOPROBE).pairs(PairMode::Exact).clone_mode().unit(),
+            ]
+        }
         "C14" => eng_text::units(tier)
             .into_iter()
             .map(|u| Unit::Custom { name: u.name.clone(), run: Box::new(move |cx| eng_text::run_unit(&u, cx)) })
@@ -335,6 +358,7 @@ pub fn units(prop: &str, tier: Tier) -> Option<Vec<Unit>> {
                     .pairs(PairMode::Shape)
                     .unit(),
                 class("kext-label-content", &en::k_ext(), pick(3, 4)).alarm(ACC | VAL | PSP | PEX | PCX | EMC | EMI).unit(),
+                class("klabel-deep-content", &en::k_label(), pick(5, 6)).alarm(ACC | VAL | PSP | PEX | PCX | EMC | EMI).unit(),
             ]
         }
         "C18" => {
